@@ -162,8 +162,10 @@ pub fn replay_tl_line(tally: &mut Tally, lineno: usize, line: &Value, scales: &[
         let mut maxabs = 1.0f64;
         for kf in line["kfs"].as_array().unwrap() { for d in kf["d"].as_array().unwrap() { if let Some(v) = d.as_array().unwrap().first() { maxabs = maxabs.max(v.as_i64().unwrap().abs() as f64); } } }
         for o in line["ov"].as_array().unwrap() { if let Some(tm) = o.as_array().unwrap().first() { maxabs = maxabs.max(eval_term(tm).v.abs()); } }
-        let exp = (3.0e38f64 / maxabs).log2().floor() as i32;
-        set_vscale((2.0f64).powi(exp) as f32);
+        let over = overshoots(line["de"].as_i64().unwrap()) || line["kfs"].as_array().unwrap().iter().any(|k| overshoots(k["e"].as_i64().unwrap()));
+        let vs = extreme_scale(maxabs, over);
+        let exp = (vs as f64).log2() as i32;
+        set_vscale(vs);
         let r = catch_unwind(AssertUnwindSafe(|| {
             let mut local = Tally::new();
             let mut tl = build_tl(line, pd, &pmap, 0);
